@@ -57,6 +57,8 @@ def mirror_kinds(repo):
 
 
 def run(repo, R):
+    from .momfam import compose_state_rules as _csr
+    _csr(R, repo, ['gbasis/integrals/momentum.py', 'gbasis/integrals/angular_momentum.py', 'gbasis/integrals/_diff_operator_int.py', 'gbasis/integrals/_moment_int.py', 'gbasis/contractions.py', 'gbasis/spherical.py', 'gbasis/utils.py', 'gbasis/base.py', 'gbasis/base_one.py', 'gbasis/base_two_symm.py', 'gbasis/base_two_asymm.py', 'gbasis/base_four_symm.py'], "the property holds for every call, also after a shell's parameters were changed through its setters")
     R.rule("PITFALL", "no result buffer typed after an input, no real cast of a transformation, no unbuffered accumulation / first-occurrence scatter through np.unique")
     from ..pitfalls import report as _pitfalls
     _pitfalls(repo, R, ['gbasis.integrals.momentum', 'gbasis.integrals.angular_momentum', 'gbasis.integrals._diff_operator_int', 'gbasis.integrals._moment_int'])
